@@ -28,7 +28,7 @@ ANCHORS = ['vivarium.core.store:generate_state', 'vivarium.core.store:Store.gene
            'vivarium.core.composer:Composite.default_state', 'vivarium.core.process:Process.default_state']
 ASSUMPTIONS = ['which default wins when two declarations give different defaults is not asserted (value must be one of them)',
                'None is not used as an explicit initial value',
-               'initial_state()/default_state() placement is asserted for nodes with a single declaring variable']
+               'initial_state() placement: several variables of one process wired to one node all supply the same value; default_state() placement is asserted for nodes with a single declaring variable']
 
 FALSY = [0, False, '', []]
 
@@ -207,14 +207,15 @@ def run(spec):
     own = {}
     expect_init = {}
     for j, (vp, ap) in enumerate(sorted(ref.items(), key=str)):
-        if len(single[ap]) != 1 or schema.get(vp[0]) == '**' or ap[0].startswith('g') or \
+        if any(schema.get(w[0]) == '**' for w in single[ap]) or ap[0].startswith('g') or \
                 list(ap) in spec.get('owned', []):
             continue
+        # (several variables of the process wired to one node all give the same value: the node must
+        # hold that value, not a list of them)
         node = own
         for k in vp[:-1]:
             node = node.setdefault(k, {})
-        node[vp[-1]] = 70000 + j
-        expect_init[ap] = 70000 + j
+        node[vp[-1]] = expect_init.setdefault(ap, 70000 + j)
     procs, steps, tops = parts(own_initial=own)
     comp = Composite({'processes': procs, 'steps': steps, 'topology': tops})
     try:
